@@ -1,6 +1,7 @@
 import SstModel.Model.Table
 import SstModel.Lemmas.CrcBurst
 import SstModel.Lemmas.Codec
+import SstModel.Lemmas.SnappyBound
 /-
   C07 (block level): `read_block_contents` hands out the contents of a block only if contents + type byte
   verify against the stored (masked) CRC-32C, and every alteration of a physical block confined to at most
@@ -30,11 +31,69 @@ def decodeByType (data : Bytes) (ty : UInt8) : Res Bytes :=
      | none => .err .compressionError)
   else .err .invalidData
 
-/-- `readBlockContents` = read, then `verifyBlock` -/
+/-- the allocations of the verification step, most recent first: only the snappy arm allocates
+    (`decompress_vec`'s `vec![0; declared]`), and only when the declared length passes the guard of
+    fix D20 -/
+def verifyAllocs (buf : Bytes) (size : Nat) : List Nat :=
+  let data := buf.take size
+  let ctype := (buf.getD size 0).toNat
+  let cksum := decodeFixed32 ((buf.drop (size + Consts.tableBlockCompressLen)).take 4)
+  if crc32c (data ++ [UInt8.ofNat ctype]) ≠ unmaskCrc cksum then []
+  else if ctype = Consts.compressionNone then []
+  else if ctype = Consts.compressionSnappy then
+    match Snappy.declaredLen data with
+    | none => []
+    | some n => if n > Consts.snappyMaxExpansion * data.length then [] else [n]
+  else []
+
+/-- the guarded decompression returns what the unguarded decoder returns: the guard of fix D20 only
+    turns decodes that fail anyway into the same error earlier (and without the allocation) -/
+theorem decompressGuarded_result (data : Bytes) (w : World) :
+    (decompressGuarded data w).2 =
+      (match Snappy.decode data with
+       | some d => .ok d
+       | none => .err .compressionError) := by
+  unfold decompressGuarded
+  cases hl : Snappy.declaredLen data with
+  | none => rw [Snappy.declaredLen_none_decode hl]; rfl
+  | some n =>
+    simp only
+    split
+    · rename_i hgt
+      cases hd : Snappy.decode data with
+      | none => rfl
+      | some d =>
+        obtain ⟨n', hn', hle⟩ := Snappy.decode_passes_guard hd
+        rw [hl] at hn'; cases hn'
+        omega
+    · cases hd : Snappy.decode data with
+      | none => simp only [bind, M.bind', logAlloc, M.fail]
+      | some d => simp only [bind, M.bind', logAlloc, pure, M.pure']
+
+/-- … and the world it leaves: only `allocs` grows, by the declared length when the guard passes -/
+theorem decompressGuarded_world (data : Bytes) (w : World) :
+    (decompressGuarded data w).1 =
+      { w with allocs := (match Snappy.declaredLen data with
+                          | none => []
+                          | some n => if n > Consts.snappyMaxExpansion * data.length then [] else [n])
+                         ++ w.allocs } := by
+  unfold decompressGuarded
+  cases hl : Snappy.declaredLen data with
+  | none => rfl
+  | some n =>
+    simp only
+    split
+    · rfl
+    · cases hd : Snappy.decode data with
+      | none => simp only [bind, M.bind', logAlloc, M.fail]; rfl
+      | some d => simp only [bind, M.bind', logAlloc, pure, M.pure']; rfl
+
+/-- `readBlockContents` = read, then `verifyBlock`; the world additionally records the decompression
+    allocation (`verifyAllocs`) -/
 theorem readBlockContents_eq (file : Nat) (loc : BlockHandle) (w : World) :
     readBlockContents file loc w =
       match readBytes file ⟨loc.offset, loc.size + Consts.tableBlockCksumLen + Consts.tableBlockCompressLen⟩ w with
-      | (w', .ok buf) => (w', verifyBlock buf loc.size)
+      | (w', .ok buf) => ({ w' with allocs := verifyAllocs buf loc.size ++ w'.allocs }, verifyBlock buf loc.size)
       | (w', .err c) => (w', .err c)
       | (w', .panic s) => (w', .panic s)
       | (w', .diverge) => (w', .diverge) := by
@@ -45,16 +104,15 @@ theorem readBlockContents_eq (file : Nat) (loc : BlockHandle) (w : World) :
     with ⟨w', r⟩
   cases r with
   | ok buf =>
-    show _ = (w', verifyBlock buf loc.size)
-    unfold verifyBlock
+    show _ = ({ w' with allocs := verifyAllocs buf loc.size ++ w'.allocs }, verifyBlock buf loc.size)
+    unfold verifyBlock verifyAllocs
     simp only []
     split
     · rfl
     · split
       · rfl
       · split
-        · generalize Snappy.decode (List.take loc.size buf) = o
-          cases o <;> rfl
+        · exact Prod.ext (decompressGuarded_world _ _) (decompressGuarded_result _ _)
         · rfl
   | err c => rfl
   | panic s => rfl
@@ -254,11 +312,13 @@ theorem verifyBlock_detects_single_byte (p s ck : Bytes) (b b' : UInt8) (hne : b
   verifyBlock_detects_burst p [b] [b'] s ck rfl (by simp) (by simpa using hne) size hsize d hok
 
 /-- reader level: whatever `readBlockContents` hands out went through `verifyBlock` on the buffer read,
-    hence (with `verifyBlock_ok`) the buffer's contents + type byte match its stored checksum -/
+    hence (with `verifyBlock_ok`) the buffer's contents + type byte match its stored checksum.
+    (`w1`: the world after the read; `w'` differs from it only by the logged decompression allocation) -/
 theorem readBlockContents_ok (file : Nat) (loc : BlockHandle) (w w' : World) (d : Bytes)
     (h : readBlockContents file loc w = (w', .ok d)) :
-    ∃ buf, readBytes file ⟨loc.offset, loc.size + Consts.tableBlockCksumLen + Consts.tableBlockCompressLen⟩ w
-              = (w', .ok buf)
+    ∃ buf w1, readBytes file ⟨loc.offset, loc.size + Consts.tableBlockCksumLen + Consts.tableBlockCompressLen⟩ w
+              = (w1, .ok buf)
+      ∧ w' = { w1 with allocs := verifyAllocs buf loc.size ++ w1.allocs }
       ∧ verifyBlock buf loc.size = .ok d
       ∧ crc32c (buf.take loc.size ++ [UInt8.ofNat (buf.getD loc.size 0).toNat])
           = unmaskCrc (decodeFixed32 ((buf.drop (loc.size + 1)).take 4)) := by
@@ -270,7 +330,7 @@ theorem readBlockContents_ok (file : Nat) (loc : BlockHandle) (w w' : World) (d 
   | ok buf =>
     simp only [Prod.mk.injEq] at h
     obtain ⟨rfl, hv⟩ := h
-    exact ⟨buf, rfl, hv, verifyBlock_ok _ _ _ hv⟩
+    exact ⟨buf, w1, rfl, rfl, hv, verifyBlock_ok _ _ _ hv⟩
   | err c => simp at h
   | panic s => simp at h
   | diverge => simp at h
@@ -281,6 +341,8 @@ end Sst
 #print axioms Sst.verifyBlock_detects_burst
 #print axioms Sst.verifyBlock_detects_cksum
 #print axioms Sst.readBlockContents_eq
+#print axioms Sst.decompressGuarded_result
+#print axioms Sst.decompressGuarded_world
 #print axioms Sst.readBytes_clean
 #print axioms Sst.verifyBlock_ok
 #print axioms Sst.verifyBlock_physical
